@@ -1,1 +1,685 @@
-(* C10 - to be filled *)
+(* C10: lemmas about vram classes: when the class statements are emitted (script level) and what LdSem
+   computes for the class symbols (link level). *)
+From Slinky Require Import Model.Types Model.Generated Model.Runtime Model.Style Model.Script Model.Writer Model.LdSem.
+From Slinky Require Import Spec.C17 Spec.C04 Spec.C03 Spec.C10 Proofs.C06 Proofs.C18 Proofs.C17 Proofs.LdLemmas
+  Proofs.C04 Proofs.C03.
+From Coq Require Import Lia ZArith.
+
+(* ====================================================================== *)
+(* script level                                                            *)
+(* ====================================================================== *)
+
+(* only add_segment touches the `emitted` flags *)
+Lemma add_path_emitted p ws : ws_emitted (add_path p ws) = ws_emitted ws.
+Proof. unfold add_path. destruct (comps_mem _ _); reflexivity. Qed.
+
+Lemma emitter_emitted sty wild offs g : emitter sty wild offs g ->
+  forall ws s ws', g ws = Ok (s, ws') -> ws_emitted ws' = ws_emitted ws.
+Proof.
+  apply (emitter_rel sty wild offs (fun ws _ ws' => ws_emitted ws' = ws_emitted ws)); intros; try reflexivity.
+  - congruence.
+  - apply add_path_emitted.
+Qed.
+
+Lemma part_groups_emitted rt st cfg seg sections rest : forall ws s ws',
+  part_groups rt st cfg seg sections rest ws = Ok (s, ws') -> ws_emitted ws' = ws_emitted ws.
+Proof.
+  induction rest as [|section rest IH]; intros ws s ws' H.
+  - apply ok_inj in H. inversion H; subst. reflexivity.
+  - apply part_groups_cons in H. destruct H as [s1 [ws1 [s2 [E1 [E2 E]]]]].
+    rewrite (IH _ _ _ E2).
+    eapply (emitter_emitted (linker_symbols_style st) (wildcard_sections seg) (offs_of_segment rt seg));
+      [apply emit_section_emitter | exact E1].
+Qed.
+
+Lemma write_segment_emitted rt st cfg seg sections noload ws s ws' :
+  write_segment rt st cfg seg sections noload ws = Ok (s, ws') -> ws_emitted ws' = ws_emitted ws.
+Proof.
+  intro H. apply write_segment_inv in H. destruct H as [body [E _]]. eapply part_groups_emitted; eassumption.
+Qed.
+
+(* what an included segment is preceded by, and the flags afterwards *)
+Theorem segment_class rt stg cfg classes seg ws s ws' :
+  add_segment rt stg cfg classes seg ws = Ok (s, ws') ->
+  should_emit rt (sg_conds seg) = true ->
+  exists rest,
+    s = class_prefix stg classes seg (ws_emitted ws) ++ seg_head stg seg ++ rest /\
+    ws_emitted ws' = emitted_after seg (ws_emitted ws) /\
+    (forall cn, sg_vram_class seg = Some cn -> exists c, class_get classes cn = Some c).
+Proof.
+  intros H Hc. apply add_segment_inv in H.
+  destruct H as [[Hc' _] | [_ [cls [ws1 [s1 [ws2 [s2 [Ec [E1 [E2 E]]]]]]]]]]; [congruence|].
+  exists (s1 ++ [SBlank] ++ s2 ++ [SBlank] ++ seg_foot stg seg).
+  rewrite (write_segment_emitted _ _ _ _ _ _ _ _ _ E2), (write_segment_emitted _ _ _ _ _ _ _ _ _ E1).
+  unfold class_prefix, emitted_after. unfold class_part in Ec.
+  destruct (sg_vram_class seg) as [cn|].
+  - destruct (class_get classes cn) as [c|] eqn:Eg; [|discriminate].
+    destruct (mem_str cn (ws_emitted ws)); apply ok_inj in Ec; inversion Ec; subst cls ws1;
+      (split; [exact E|]); (split; [reflexivity|]); intros cn' Ecn; inversion Ecn; subst; eauto.
+  - apply ok_inj in Ec. inversion Ec; subst cls ws1. split; [exact E|]. split; [reflexivity|]. discriminate.
+Qed.
+
+Lemma segment_class_excluded rt stg cfg classes seg ws s ws' :
+  add_segment rt stg cfg classes seg ws = Ok (s, ws') ->
+  should_emit rt (sg_conds seg) = false -> s = [] /\ ws' = ws.
+Proof.
+  intros H Hc. rewrite (add_segment_excluded _ _ _ _ _ _ Hc) in H. apply ok_inj in H. inversion H; auto.
+Qed.
+
+(* C10_missing_class *)
+Theorem missing_class rt stg cfg classes seg ws cn :
+  sg_vram_class seg = Some cn -> class_get classes cn = None ->
+  add_segment rt stg cfg classes seg ws =
+  if should_emit rt (sg_conds seg) then Err (EMissingVramClassForSegment (sg_name seg) cn) else Ok ([], ws).
+Proof.
+  intros Hcn Hg. unfold add_segment. destruct (should_emit rt (sg_conds seg)); [|reflexivity].
+  cbn [negb]. rewrite Hcn, Hg. reflexivity.
+Qed.
+
+(* the flags of one class through one segment and through the fold *)
+Lemma mem_emitted_after cn seg e :
+  mem_str cn (emitted_after seg e) = mem_str cn e || opt_eqb_str (sg_vram_class seg) (Some cn).
+Proof.
+  unfold emitted_after. destruct (sg_vram_class seg) as [cn'|]; cbn [opt_eqb_str]; [|rewrite orb_false_r; reflexivity].
+  destruct (mem_str cn' e) eqn:Em.
+  - destruct (String.eqb cn' cn) eqn:E; [|rewrite orb_false_r; reflexivity].
+    apply String.eqb_eq in E. subst. rewrite Em. reflexivity.
+  - cbn [mem_str]. rewrite (String.eqb_sym cn cn'). destruct (String.eqb cn' cn); [rewrite orb_true_r|rewrite orb_false_r];
+      reflexivity.
+Qed.
+
+Theorem emitted_fold rt stg cfg classes cn segs : forall ws s ws',
+  fold_out (add_segment rt stg cfg classes) segs ws = Ok (s, ws') ->
+  mem_str cn (ws_emitted ws') = mem_str cn (ws_emitted ws) || names_class rt cn segs.
+Proof.
+  induction segs as [|seg r IH]; intros ws s ws' H.
+  - apply fold_out_nil in H. destruct H; subst. cbn. rewrite orb_false_r. reflexivity.
+  - apply fold_out_cons in H. destruct H as [s1 [ws1 [s2 [E1 [E2 E]]]]].
+    rewrite (IH _ _ _ E2). cbn [names_class existsb]. fold (names_class rt cn r).
+    destruct (should_emit rt (sg_conds seg)) eqn:Hc.
+    + destruct (segment_class _ _ _ _ _ _ _ _ E1 Hc) as [rest [_ [Ee _]]]. rewrite Ee, mem_emitted_after.
+      cbn [andb]. rewrite orb_assoc. reflexivity.
+    + destruct (segment_class_excluded _ _ _ _ _ _ _ _ E1 Hc) as [_ Ew]. subst ws1. reflexivity.
+Qed.
+
+Theorem emitted_monotone rt stg cfg classes cn segs ws s ws' :
+  fold_out (add_segment rt stg cfg classes) segs ws = Ok (s, ws') ->
+  mem_str cn (ws_emitted ws) = true -> mem_str cn (ws_emitted ws') = true.
+Proof. intros H Hm. rewrite (emitted_fold _ _ _ _ cn _ _ _ _ H), Hm. reflexivity. Qed.
+
+(* C10_once_before: the start statements of class [cn] appear exactly in front of the first included
+   segment that names it (and never when it was already emitted) *)
+Theorem once_before rt stg cfg classes l1 seg l2 ws body ws' cn c :
+  fold_out (add_segment rt stg cfg classes) (l1 ++ seg :: l2) ws = Ok (body, ws') ->
+  should_emit rt (sg_conds seg) = true -> sg_vram_class seg = Some cn -> class_get classes cn = Some c ->
+  mem_str cn (ws_emitted ws) = false -> names_class rt cn l1 = false ->
+  exists b1 wsa rest wsb b2,
+    fold_out (add_segment rt stg cfg classes) l1 ws = Ok (b1, wsa) /\
+    add_segment rt stg cfg classes seg wsa = Ok (class_start_stmts stg c cn ++ seg_head stg seg ++ rest, wsb) /\
+    fold_out (add_segment rt stg cfg classes) l2 wsb = Ok (b2, ws') /\
+    body = b1 ++ (class_start_stmts stg c cn ++ seg_head stg seg ++ rest) ++ b2 /\
+    mem_str cn (ws_emitted wsa) = false /\ mem_str cn (ws_emitted wsb) = true /\ mem_str cn (ws_emitted ws') = true.
+Proof.
+  intros H Hc Hcn Hg Hm Hn. rewrite fold_out_app in H.
+  apply bind_ok_out in H. destruct H as [b1 [wsa [E1 H]]]. cbn [fst snd] in H.
+  apply bind_ok_out in H. destruct H as [b23 [ws3 [E23 H]]]. cbn [fst snd] in H.
+  apply ok_inj in H. inversion H; subst body ws3. clear H.
+  apply fold_out_cons in E23. destruct E23 as [s [wsb [b2 [Es [E2 E]]]]]. subst b23.
+  assert (Ma : mem_str cn (ws_emitted wsa) = false) by (rewrite (emitted_fold _ _ _ _ cn _ _ _ _ E1), Hm, Hn; reflexivity).
+  destruct (segment_class _ _ _ _ _ _ _ _ Es Hc) as [rest [Eshape [Ee _]]].
+  unfold class_prefix in Eshape. rewrite Hcn, Ma, Hg in Eshape.
+  assert (Mb : mem_str cn (ws_emitted wsb) = true).
+  { rewrite Ee, mem_emitted_after, Hcn. cbn [opt_eqb_str]. rewrite String.eqb_refl, orb_true_r. reflexivity. }
+  exists b1, wsa, rest, wsb, b2. rewrite <- Eshape. repeat split; try assumption.
+  eapply emitted_monotone; eassumption.
+Qed.
+
+(* ... and no later segment repeats them: once the flag is set the prefix of every segment naming
+   the class is empty *)
+Theorem never_again stg classes seg emitted cn :
+  sg_vram_class seg = Some cn -> mem_str cn emitted = true -> class_prefix stg classes seg emitted = [].
+Proof. intros Hcn Hm. unfold class_prefix. rewrite Hcn, Hm. reflexivity. Qed.
+
+(* a class no included segment names is never marked, hence gets no statement at all *)
+Theorem unused_class rt stg cfg classes cn segs ws s ws' :
+  fold_out (add_segment rt stg cfg classes) segs ws = Ok (s, ws') ->
+  mem_str cn (ws_emitted ws) = false -> names_class rt cn segs = false ->
+  mem_str cn (ws_emitted ws') = false.
+Proof. intros H Hm Hn. rewrite (emitted_fold _ _ _ _ cn _ _ _ _ H), Hm, Hn. reflexivity. Qed.
+
+(* the size statements: one per emitted class, in declaration order (from C18) *)
+Theorem class_sizes st classes ws :
+  end_sections_body st classes ws =
+  sep_concat [map (class_size_stmt (linker_symbols_style st)) (emitted_classes classes ws);
+              tail_allow st; tail_extra st; tail_discard st].
+Proof. apply end_sections_layout. Qed.
+
+(* ====================================================================== *)
+(* names                                                                   *)
+(* ====================================================================== *)
+
+Lemma fmt2_last sty tpl x c :
+  In tpl all_templates -> last_char (last (pick sty tpl) "") = Some c -> last_char (fmt (pick sty tpl) [x]) = Some c.
+Proof.
+  intros Hin Hl.
+  assert (Hne : pick sty tpl <> []) by (intro E; rewrite E in Hl; discriminate).
+  destruct (fmt_ends (pick sty tpl) [x] Hne) as [pre E]. rewrite E, last_char_app; [assumption|].
+  intro E0. rewrite E0 in Hl. discriminate.
+Qed.
+
+Lemma class_start_last sty a :
+  last_char (vram_class_start sty a) = Some (match sty with Splat => "T" | Makerom => "t" end)%char.
+Proof. unfold vram_class_start. apply fmt2_last; [simpl; tauto | destruct sty; reflexivity]. Qed.
+
+Lemma class_end_last sty a :
+  last_char (vram_class_end sty a) = Some (match sty with Splat => "D" | Makerom => "d" end)%char.
+Proof. unfold vram_class_end. apply fmt2_last; [simpl; tauto | destruct sty; reflexivity]. Qed.
+
+(* a class start symbol is never a class end symbol, whatever the class names *)
+Lemma class_start_not_end sty a b : vram_class_end sty b <> vram_class_start sty a.
+Proof.
+  intro E. pose proof (class_start_last sty a) as H1. rewrite <- E, class_end_last in H1. destruct sty; discriminate.
+Qed.
+
+Lemma class_start_not_dot sty a : vram_class_start sty a <> "."%string.
+Proof. apply (style_name_neq sty); [sn|reflexivity]. Qed.
+
+Lemma class_end_not_dot sty a : vram_class_end sty a <> "."%string.
+Proof. apply (style_name_neq sty); [sn|reflexivity]. Qed.
+
+Lemma class_size_not_dot sty a : vram_class_size sty a <> "."%string.
+Proof. apply (style_name_neq sty); [sn|reflexivity]. Qed.
+
+(* ====================================================================== *)
+(* link level                                                              *)
+(* ====================================================================== *)
+
+Local Open Scope Z_scope.
+
+Lemma Forall2_impl' {A B} (P Q : A -> B -> Prop) l1 l2 :
+  (forall a b, P a b -> Q a b) -> Forall2 P l1 l2 -> Forall2 Q l1 l2.
+Proof. intros H F. induction F; constructor; auto. Qed.
+
+Section Link.
+  Variables (env : list (string * Z)) (senv : list osec) (ext : list (string * Z)) (final : bool).
+
+  Notation top := (exec_top_stmt env senv ext final).
+  Notation runl := (run env senv ext final).
+
+  (* sym = MAX(sym, other) *)
+  Theorem top_maxself st sym other a b :
+    val st sym = Some a -> sym_lookup other st env ext = Some b ->
+    top st (SMaxSelf sym other) = set_sym sym (Z.max a b) false st.
+  Proof.
+    intros Ha Hb. cbn [exec_top_stmt]. rewrite (sym_lookup_defined _ _ _ _ _ Ha), Hb. reflexivity.
+  Qed.
+
+  Lemma sym_lookup_set_other s v p st x :
+    s <> x -> sym_lookup x (set_sym s v p st) env ext = sym_lookup x st env ext.
+  Proof. intro H. unfold sym_lookup. rewrite lookup_set_sym_other by assumption. reflexivity. Qed.
+
+  Lemma top_literal st x v :
+    x <> "."%string -> top st (linker_symbol x (EHex8 v)) = set_sym x (Z.of_N v) false st.
+  Proof.
+    intro Hd. unfold linker_symbol. cbn [exec_top_stmt]. apply String.eqb_neq in Hd. rewrite Hd. reflexivity.
+  Qed.
+
+  (* START = MAX(START, END_o) for every followed class o *)
+  Lemma max_fold sty START os : forall es st a,
+    (forall o, vram_class_end sty o <> START) ->
+    val st START = Some a ->
+    Forall2 (fun o e => sym_lookup (vram_class_end sty o) st env ext = Some e) os es ->
+    let st' := runl (map (fun o => SMaxSelf START (vram_class_end sty o)) os) st in
+    val st' START = Some (fold_left Z.max es a) /\
+    (forall x, x <> START -> sym_lookup x st' env ext = sym_lookup x st env ext).
+  Proof.
+    induction os as [|o os IH]; intros es st a Hne Ha Hes; inversion Hes as [|? e ? es' He Hes']; subst.
+    - cbn. auto.
+    - cbn [map]. rewrite run_cons, (top_maxself st START _ a e Ha He).
+      set (st1 := set_sym START (Z.max a e) false st).
+      assert (Hes1 : Forall2 (fun o e => sym_lookup (vram_class_end sty o) st1 env ext = Some e) os es').
+      { eapply Forall2_impl'; [|exact Hes']. intros o' e' H. unfold st1. rewrite sym_lookup_set_other; [exact H|].
+        intro E. apply (Hne o'). symmetry. exact E. }
+      destruct (IH es' st1 (Z.max a e) Hne (lookup_set_sym_same _ _ _ _) Hes1) as [V F].
+      split; [exact V|]. intros x Hx. rewrite (F x Hx). unfold st1. apply sym_lookup_set_other. congruence.
+  Qed.
+
+  (* C10_start_value *)
+  Theorem class_start_value stg c name st :
+    let sty := linker_symbols_style stg in
+    let START := vram_class_start sty name in
+    let END := vram_class_end sty name in
+    let st' := runl (class_start_stmts stg c name) st in
+    val st' END = Some 0 /\
+    (forall v, vc_fixed_vram c = Some v -> val st' START = Some (Z.of_N v)) /\
+    (forall s v, vc_fixed_vram c = None -> vc_fixed_symbol c = Some s ->
+                 eval_raw env ext st s = Ok v -> val st' START = Some v) /\
+    (forall es, vc_fixed_vram c = None -> vc_fixed_symbol c = None ->
+                Forall2 (fun o e => sym_lookup (vram_class_end sty o) st env ext = Some e) (vc_follows_classes c) es ->
+                val st' START = Some (fold_left Z.max es 0)).
+  Proof.
+    intros sty START END st'.
+    assert (NS : START <> "."%string) by apply class_start_not_dot.
+    assert (NE : END <> "."%string) by apply class_end_not_dot.
+    assert (NSE : END <> START) by apply class_start_not_end.
+    unfold st', class_start_stmts. rewrite run_app. fold sty START END.
+    set (first := match vc_fixed_vram c with
+                  | Some v => [linker_symbol START (EHex8 v)]
+                  | None => match vc_fixed_symbol c with
+                            | Some s => [linker_symbol START (ERaw s)]
+                            | None => linker_symbol START (EHex8 0) ::
+                                      map (fun o => SMaxSelf START (vram_class_end sty o)) (vc_follows_classes c)
+                            end
+                  end).
+    set (st1 := runl first st).
+    assert (Efin : forall x, val (runl [linker_symbol END (EHex8 0); SBlank] st1) x =
+                             if String.eqb x END then Some 0 else val st1 x).
+    { intro x. rewrite run_cons, run_one, top_literal by assumption. cbn [exec_top_stmt]. unfold val.
+      cbn [set_sym l_syms lookup]. reflexivity. }
+    split; [rewrite Efin, String.eqb_refl; reflexivity|].
+    assert (ES : forall v, val st1 START = Some v ->
+                           val (runl [linker_symbol END (EHex8 0); SBlank] st1) START = Some v).
+    { intros v Hv. rewrite Efin. destruct (String.eqb START END) eqn:E; [|exact Hv].
+      apply String.eqb_eq in E. exfalso. apply NSE. symmetry. exact E. }
+    repeat split.
+    - intros v Hv. apply ES. unfold st1, first. rewrite Hv, run_one, top_literal by assumption.
+      apply lookup_set_sym_same.
+    - intros s v Hv Hs He. apply ES. unfold st1, first. rewrite Hv, Hs, run_one.
+      unfold linker_symbol. cbn [exec_top_stmt]. apply String.eqb_neq in NS. rewrite NS. cbn [eval_expr].
+      rewrite He, assign_ok. apply lookup_set_sym_same.
+    - intros es Hv Hs Hes. apply ES. unfold st1, first. rewrite Hv, Hs, run_cons, top_literal by assumption.
+      set (st0 := set_sym START (Z.of_N 0) false st).
+      assert (Hes0 : Forall2 (fun o e => sym_lookup (vram_class_end sty o) st0 env ext = Some e)
+                             (vc_follows_classes c) es).
+      { eapply Forall2_impl'; [|exact Hes]. intros o e H. unfold st0. rewrite sym_lookup_set_other; [exact H|].
+        intro E. apply (class_start_not_end sty name o). symmetry. exact E. }
+      destruct (max_fold sty START (vc_follows_classes c) es st0 0) as [V _]; try assumption.
+      + intro o. apply class_start_not_end.
+      + apply lookup_set_sym_same.
+  Qed.
+
+  (* C10_end_running_max, one step: see top_maxself; over a whole run *)
+  Inductive MaxRun (END : string) : lstate -> list Z -> lstate -> Prop :=
+  | mr_nil st : MaxRun END st [] st
+  | mr_step st G x v vs st'' :
+      existsb (assigns END) G = false ->
+      sym_lookup x (runl G st) env ext = Some v ->
+      MaxRun END (top (runl G st) (SMaxSelf END x)) vs st'' ->
+      MaxRun END st (v :: vs) st''.
+
+  Theorem max_run END st vs st' : MaxRun END st vs st' ->
+    forall a, val st END = Some a -> val st' END = Some (fold_left Z.max vs a).
+  Proof.
+    induction 1 as [st | st G x v vs st'' HG Hx Hrun IH]; intros a Ha; [exact Ha|].
+    cbn [fold_left]. apply IH.
+    assert (Ha' : val (runl G st) END = Some a) by (unfold val; rewrite run_syms; assumption).
+    rewrite (top_maxself _ END x a v Ha' Hx). apply lookup_set_sym_same.
+  Qed.
+
+  (* a member segment raises the end of its class to its own VRAM end *)
+  Theorem member_raises_end END VE pre st0 a ve :
+    val (runl pre st0) END = Some a ->
+    sym_lookup VE (runl pre st0) env ext = Some ve ->
+    val (runl (pre ++ [SBlank; SMaxSelf END VE; SBlank]) st0) END = Some (Z.max a ve).
+  Proof.
+    intros Ha Hv. rewrite run_app.
+    change (runl [SBlank; SMaxSelf END VE; SBlank] (runl pre st0)) with (top (runl pre st0) (SMaxSelf END VE)).
+    rewrite (top_maxself _ END VE a ve Ha Hv). apply lookup_set_sym_same.
+  Qed.
+
+  (* C10_member_starts_at_class: the address expression of a member evaluates to the class start *)
+  Theorem member_addr_value st here START v :
+    sym_lookup START st env ext = Some v -> eval_expr env senv ext st here (ESym START) = Ok v.
+  Proof. intro H. cbn [eval_expr]. rewrite H. reflexivity. Qed.
+
+  (* C10_size *)
+  Theorem class_size_value sty cn st e s :
+    val st (vram_class_end sty cn) = Some e -> val st (vram_class_start sty cn) = Some s ->
+    top st (class_size_stmt sty cn) = set_sym (vram_class_size sty cn) (e - s) false st.
+  Proof. intros He Hs. unfold class_size_stmt. apply top_sub; try assumption. apply class_size_not_dot. Qed.
+
+  (* ---------- what add_segment emits for a member segment ---------- *)
+
+  Lemma seg_foot_member stg seg cn :
+    sg_vram_class seg = Some cn ->
+    seg_foot stg seg =
+    (seg_foot_main stg seg ++ [SBlank; class_end_max (linker_symbols_style stg) cn seg; SBlank])%list.
+  Proof.
+    intro H. unfold seg_foot, seg_foot_main. cbv zeta. rewrite H. unfold class_end_max.
+    repeat (rewrite <- app_assoc; cbn [app]). reflexivity.
+  Qed.
+
+  Theorem member_shape rt stg cfg classes seg ws s ws' cn :
+    add_segment rt stg cfg classes seg ws = Ok (s, ws') ->
+    should_emit rt (sg_conds seg) = true -> sg_vram_class seg = Some cn ->
+    exists rest,
+      s = (class_prefix stg classes seg (ws_emitted ws) ++
+           (seg_head stg seg ++ rest ++ seg_foot_main stg seg) ++
+           [SBlank; class_end_max (linker_symbols_style stg) cn seg; SBlank])%list.
+  Proof.
+    intros H Hc Hcn. pose proof (segment_class _ _ _ _ _ _ _ _ H Hc) as [rest0 [E0 _]].
+    apply add_segment_inv in H.
+    destruct H as [[Hc' _] | [_ [cls [ws1 [s1 [ws2 [s2 [Ec [E1 [E2 E]]]]]]]]]]; [congruence|].
+    exists (s1 ++ [SBlank] ++ s2 ++ [SBlank])%list.
+    assert (Ecls : cls = class_prefix stg classes seg (ws_emitted ws)).
+    { unfold class_part in Ec. unfold class_prefix. rewrite Hcn in *.
+      destruct (class_get classes cn); [|discriminate].
+      destruct (mem_str cn (ws_emitted ws)); apply ok_inj in Ec; inversion Ec; reflexivity. }
+    rewrite E, Ecls, (seg_foot_member stg seg cn Hcn). repeat (rewrite <- app_assoc; cbn [app]). reflexivity.
+  Qed.
+
+  (* the end of the class after a member: MAX(what it was - 0 when the class has just been started -,
+     the member's VRAM end); the middle of the segment must not assign the class end symbol
+     (it assigns only symbols named after the segment, its sections and its linker offsets) *)
+  Theorem member_class_end rt stg cfg classes seg ws s ws' cn st0 a ve :
+    add_segment rt stg cfg classes seg ws = Ok (s, ws') ->
+    should_emit rt (sg_conds seg) = true -> sg_vram_class seg = Some cn ->
+    let sty := linker_symbols_style stg in
+    let END := vram_class_end sty cn in
+    let VE := segment_vram_end sty (sg_name seg) in
+    forall rest,
+      s = (class_prefix stg classes seg (ws_emitted ws) ++
+           (seg_head stg seg ++ rest ++ seg_foot_main stg seg) ++
+           [SBlank; class_end_max sty cn seg; SBlank])%list ->
+      existsb (assigns END) (seg_head stg seg ++ rest ++ seg_foot_main stg seg) = false ->
+      (mem_str cn (ws_emitted ws) = true -> val st0 END = Some a) ->
+      (mem_str cn (ws_emitted ws) = false -> a = 0) ->
+      sym_lookup VE (runl (class_prefix stg classes seg (ws_emitted ws) ++
+                           seg_head stg seg ++ rest ++ seg_foot_main stg seg) st0) env ext = Some ve ->
+      val (runl s st0) END = Some (Z.max a ve).
+  Proof.
+    intros H Hc Hcn sty END VE rest Es Hmid Ha1 Ha0 Hve.
+    pose proof (segment_class _ _ _ _ _ _ _ _ H Hc) as [_ [_ [_ Hget]]]. destruct (Hget cn Hcn) as [c Hg].
+    rewrite Es, app_assoc. unfold class_end_max. fold sty END VE. apply member_raises_end; [|exact Hve].
+    rewrite run_app. unfold val. rewrite run_syms by assumption.
+    unfold class_prefix. rewrite Hcn, Hg. destruct (mem_str cn (ws_emitted ws)) eqn:Em.
+    - apply Ha1. reflexivity.
+    - rewrite (Ha0 eq_refl). apply (class_start_value stg c cn st0).
+  Qed.
+
+  (* C10_member_starts_at_class for what add_segment emits: the allocatable section of a member is
+     placed at the value the class start symbol has once the class statements (if any) have run *)
+  Theorem member_starts_at_class rt stg cfg classes seg ws s ws' cn st0 :
+    add_segment rt stg cfg classes seg ws = Ok (s, ws') ->
+    should_emit rt (sg_conds seg) = true -> sg_vram_class seg = Some cn -> at_most_one_addr seg ->
+    let sty := linker_symbols_style stg in
+    let START := vram_class_start sty cn in
+    let st' := runl s st0 in
+    vram_names_distinct sty (sg_name seg) s = true ->
+    ~ In (LForwardRef (alloc_name seg)) (l_errors st') ->
+    sizes_ok st0 ->
+    existsb (assigns START) (seg_head stg seg ++ sections_kind_start sty cfg seg false) = false ->
+    exists o1 o2,
+      l_secs st' = (l_secs st0 ++ [o1; o2])%list /\ os_name o1 = alloc_name seg /\
+      sym_lookup START (runl (class_prefix stg classes seg (ws_emitted ws)) st0) env ext = Some (os_vma o1).
+  Proof.
+    intros H Hc Hcn Hone sty START st' Hd He Hsz Hfree.
+    destruct (segment_vram env senv ext final rt stg cfg classes seg ws s ws' st0 H Hc Hd He Hsz)
+      as (cls & ws1 & b1 & o1 & o2 & A2 & Ec & _ & V & S & N1 & _).
+    exists o1, o2. split; [exact S|]. split; [exact N1|].
+    cbv zeta in V. destruct (requested_start env senv ext sty seg _ _ _ _ Hone V) as [_ [_ [_ [Hcls _]]]].
+    specialize (Hcls cn Hcn). fold START in Hcls. rewrite run_app in Hcls.
+    rewrite (sym_lookup_frame env senv ext final _ _ START Hfree) in Hcls.
+    assert (Ecls : cls = class_prefix stg classes seg (ws_emitted ws)).
+    { unfold class_part in Ec. unfold class_prefix. rewrite Hcn in *.
+      destruct (class_get classes cn); [|discriminate].
+      destruct (mem_str cn (ws_emitted ws)); apply ok_inj in Ec; inversion Ec; reflexivity. }
+    rewrite <- Ecls. exact Hcls.
+  Qed.
+End Link.
+
+(* ====================================================================== *)
+(* the end of a class is the largest VRAM end among its emitted members    *)
+(* ====================================================================== *)
+
+Lemma append_inj_r x : forall y s, (x ++ s)%string = (y ++ s)%string -> x = y.
+Proof.
+  induction x as [|a x IH]; intros [|b y] s H; cbn [append] in H.
+  - reflexivity.
+  - exfalso. apply (f_equal String.length) in H. cbn [String.length] in H. rewrite slen_app in H. lia.
+  - exfalso. apply (f_equal String.length) in H. cbn [String.length] in H. rewrite slen_app in H. lia.
+  - inversion H as [[Ea Er]]. f_equal. eapply IH. exact Er.
+Qed.
+
+Lemma vram_class_end_inj sty a b : vram_class_end sty a = vram_class_end sty b -> a = b.
+Proof.
+  unfold vram_class_end. destruct sty; cbn.
+  - apply append_inj_r.
+  - intro H. inversion H as [E]. eapply append_inj_r. exact E.
+Qed.
+
+Definition nes (END : string) (s : stmt) : Prop := end_shape END s = false.
+
+Lemma nes_kind_start END sty cfg seg noload : Forall (nes END) (sections_kind_start sty cfg seg noload).
+Proof. unfold sections_kind_start. destruct (kind_syms cfg); repeat constructor. Qed.
+
+Lemma nes_kind_end END sty cfg seg noload : Forall (nes END) (sections_kind_end sty cfg seg noload).
+Proof. unfold sections_kind_end, sym_end_size. destruct (kind_syms cfg); repeat constructor. Qed.
+
+Lemma nes_write_segment END rt st cfg seg sections noload ws s ws' :
+  write_segment rt st cfg seg sections noload ws = Ok (s, ws') -> Forall (nes END) s.
+Proof.
+  intro H. apply write_segment_inv in H. destruct H as [body [_ E]]. subst s.
+  fa; [apply nes_kind_start | repeat constructor | apply nes_kind_end].
+Qed.
+
+Lemma nes_seg_head END st seg : Forall (nes END) (seg_head st seg).
+Proof. unfold seg_head. destruct (segment_start_align seg); repeat constructor. Qed.
+
+Lemma nes_seg_foot_main END st seg : Forall (nes END) (seg_foot_main st seg).
+Proof. unfold seg_foot_main, sym_end_size. cbv zeta. destruct (segment_end_align seg); repeat constructor. Qed.
+
+Lemma nes_class_start END stg c cn' :
+  END <> vram_class_end (linker_symbols_style stg) cn' ->
+  (exists cn, END = vram_class_end (linker_symbols_style stg) cn) ->
+  Forall (nes END) (class_start_stmts stg c cn').
+Proof.
+  intros Hne [cn Hcn]. 
+  assert (N1 : String.eqb (vram_class_start (linker_symbols_style stg) cn') END = false).
+  { apply String.eqb_neq. intro E. subst END. apply (class_start_not_end (linker_symbols_style stg) cn' cn). symmetry. exact E. }
+  assert (N2 : String.eqb (vram_class_end (linker_symbols_style stg) cn') END = false).
+  { apply String.eqb_neq. intro E. apply Hne. symmetry. exact E. }
+  unfold class_start_stmts. apply Forall_app; split.
+  - destruct (vc_fixed_vram c) as [v|]; [|destruct (vc_fixed_symbol c)].
+    + constructor; [|constructor]. unfold nes, linker_symbol. cbn [end_shape]. destruct v; [exact N1|reflexivity].
+    + repeat constructor.
+    + constructor; [unfold nes, linker_symbol; cbn [end_shape]; exact N1|].
+      apply Forall_map_intro. intro o. unfold nes. cbn [end_shape]. exact N1.
+  - constructor; [unfold nes, linker_symbol; cbn [end_shape]; exact N2|]. repeat constructor.
+Qed.
+
+Lemma clean_no_shape END l :
+  end_clean END l = true -> Forall (nes END) l -> existsb (assigns END) l = false.
+Proof.
+  intros Hc Hn. apply existsb_false_Forall. unfold end_clean in Hc. rewrite forallb_forall in Hc.
+  rewrite Forall_forall in *. intros s Hs. specialize (Hc s Hs). specialize (Hn s Hs). unfold nes in Hn.
+  rewrite Hn, orb_false_r in Hc. apply negb_true_iff in Hc. exact Hc.
+Qed.
+
+Lemma end_clean_app END a b : end_clean END (a ++ b) = true -> end_clean END a = true /\ end_clean END b = true.
+Proof. unfold end_clean. rewrite forallb_app. apply andb_true_iff. Qed.
+
+(* a segment that is not a member of the class never touches the class end *)
+Lemma nonmember_untouched rt stg cfg classes seg ws s ws' cn :
+  add_segment rt stg cfg classes seg ws = Ok (s, ws') ->
+  sg_vram_class seg <> Some cn ->
+  end_clean (vram_class_end (linker_symbols_style stg) cn) s = true ->
+  existsb (assigns (vram_class_end (linker_symbols_style stg) cn)) s = false.
+Proof.
+  intros H Hcn Hclean. apply clean_no_shape; [exact Hclean|]. apply add_segment_inv in H.
+  destruct H as [[_ [E _]] | [_ [cls [ws1 [s1 [ws2 [s2 [Ec [E1 [E2 E]]]]]]]]]]; subst s; [constructor|].
+  set (END := vram_class_end (linker_symbols_style stg) cn) in *.
+  fa.
+  - apply class_part_inv in Ec. destruct Ec as [[Ecls _] | [cn' [c [Hcn' [_ [_ [Ecls _]]]]]]]; subst cls; [constructor|].
+    apply nes_class_start; [|exists cn; reflexivity]. intro E. apply vram_class_end_inj in E. congruence.
+  - apply nes_seg_head.
+  - eapply nes_write_segment; eassumption.
+  - repeat constructor.
+  - eapply nes_write_segment; eassumption.
+  - repeat constructor.
+  - unfold seg_foot, sym_end_size. cbv zeta. fa.
+    all: try solve [repeat constructor].
+    all: try solve [destruct (segment_end_align seg); repeat constructor].
+    destruct (sg_vram_class seg) as [cn'|] eqn:Ecn; [|constructor]. constructor; [reflexivity|]. constructor; [|constructor].
+    unfold nes. cbn [end_shape]. apply String.eqb_neq. intro E. apply vram_class_end_inj in E. congruence.
+Qed.
+
+(* every emitted segment defines its VRAM end *)
+Lemma vend_assigned rt stg cfg classes seg ws s ws' :
+  add_segment rt stg cfg classes seg ws = Ok (s, ws') -> should_emit rt (sg_conds seg) = true ->
+  existsb (assigns (segment_vram_end (linker_symbols_style stg) (sg_name seg))) s = true.
+Proof.
+  intros H Hc. apply add_segment_inv in H.
+  destruct H as [[Hc' _] | [_ [cls [ws1 [s1 [ws2 [s2 [Ec [E1 [E2 E]]]]]]]]]]; [congruence|]. subst s.
+  apply existsb_in_true with (s := linker_symbol (segment_vram_end (linker_symbols_style stg) (sg_name seg)) EDot);
+    [|apply String.eqb_refl].
+  do 6 (apply in_or_app; right). unfold seg_foot, sym_end_size. cbv zeta.
+  apply in_or_app; right. apply in_or_app; right. apply in_or_app; left. left. reflexivity.
+Qed.
+
+Lemma vend_assigned_fold rt stg cfg classes segs : forall ws body ws' seg,
+  fold_out (add_segment rt stg cfg classes) segs ws = Ok (body, ws') ->
+  In seg segs -> should_emit rt (sg_conds seg) = true ->
+  existsb (assigns (segment_vram_end (linker_symbols_style stg) (sg_name seg))) body = true.
+Proof.
+  induction segs as [|x r IH]; intros ws body ws' seg H Hin Hc; [contradiction|].
+  apply fold_out_cons in H. destruct H as [s1 [ws1 [s2 [E1 [E2 E]]]]]. subst body. rewrite existsb_app.
+  destruct Hin as [Hin|Hin].
+  - subst x. rewrite (vend_assigned _ _ _ _ _ _ _ _ E1 Hc). reflexivity.
+  - rewrite (IH _ _ _ _ E2 Hin Hc). apply orb_true_r.
+Qed.
+
+Section ClassEnd.
+  Variables (env : list (string * Z)) (senv : list osec) (ext : list (string * Z)) (final : bool).
+  Notation top := (exec_top_stmt env senv ext final).
+  Notation runl := (run env senv ext final).
+
+  Theorem class_end_is_max rt stg cfg classes cn segs : forall ws body ws' st0 a,
+    fold_out (add_segment rt stg cfg classes) segs ws = Ok (body, ws') ->
+    let sty := linker_symbols_style stg in
+    let END := vram_class_end sty cn in
+    let st' := runl body st0 in
+    end_clean END body = true ->
+    (forall seg, In seg (members rt cn segs) -> defined_once (segment_vram_end sty (sg_name seg)) body = true) ->
+    (mem_str cn (ws_emitted ws) = true -> val st0 END = Some a) ->
+    (mem_str cn (ws_emitted ws) = false -> a = 0) ->
+    exists vs,
+      Forall2 (fun seg v => val st' (segment_vram_end sty (sg_name seg)) = Some v) (members rt cn segs) vs /\
+      (mem_str cn (ws_emitted ws') = true -> val st' END = Some (fold_left Z.max vs a)).
+  Proof.
+    induction segs as [|seg r IH]; intros ws body ws' st0 a H sty END st' Hclean Hve Ha1 Ha0.
+    - apply fold_out_nil in H. destruct H; subst. exists []. split; [constructor|]. exact Ha1.
+    - apply fold_out_cons in H. destruct H as [s1 [ws1 [body_r [E1 [E2 E]]]]]. subst body.
+      apply end_clean_app in Hclean. destruct Hclean as [Hc1 Hcr].
+      unfold st'. rewrite run_app. set (st1 := runl s1 st0).
+      unfold members in *. cbn [filter] in *. unfold is_member at 1 in Hve. unfold is_member at 1.
+      destruct (should_emit rt (sg_conds seg)) eqn:Hc; cbn [andb] in *.
+      2:{ (* excluded *)
+          destruct (segment_class_excluded _ _ _ _ _ _ _ _ E1 Hc) as [Es Ew]. subst s1 ws1.
+          apply (IH ws body_r ws' st0 a E2); assumption. }
+      destruct (opt_eqb_str (sg_vram_class seg) (Some cn)) eqn:Em.
+      + (* a member *)
+        assert (Hcn : sg_vram_class seg = Some cn).
+        { destruct (sg_vram_class seg) as [c'|]; [|discriminate]. cbn [opt_eqb_str] in Em.
+          apply String.eqb_eq in Em. subst. reflexivity. }
+        set (VE := segment_vram_end sty (sg_name seg)).
+        destruct (member_shape rt stg cfg classes seg ws s1 ws1 cn E1 Hc Hcn) as [rest Es].
+        set (prefix := class_prefix stg classes seg (ws_emitted ws)) in *.
+        set (mid := (seg_head stg seg ++ rest ++ seg_foot_main stg seg)%list) in *.
+        (* the middle does not assign END *)
+        assert (Hmid : existsb (assigns END) mid = false).
+        { apply clean_no_shape.
+          - rewrite Es in Hc1. apply end_clean_app in Hc1. destruct Hc1 as [_ Hc1].
+            apply end_clean_app in Hc1. tauto.
+          - pose proof E1 as E1'. apply add_segment_inv in E1'.
+            destruct E1' as [[Hc' _] | [_ [cls [wsx [sa [wsy [sb [Ec [Ea [Eb Eshape]]]]]]]]]]; [congruence|].
+            assert (Erest : rest = (sa ++ [SBlank] ++ sb ++ [SBlank])%list).
+            { assert (Ecls : cls = prefix).
+              { unfold class_part in Ec. unfold prefix, class_prefix. rewrite Hcn in *.
+                destruct (class_get classes cn); [|discriminate].
+                destruct (mem_str cn (ws_emitted ws)); apply ok_inj in Ec; inversion Ec; reflexivity. }
+              rewrite Es, Ecls, (seg_foot_member stg seg cn Hcn) in Eshape. unfold mid in Eshape.
+              repeat (rewrite <- app_assoc in Eshape; cbn [app] in Eshape).
+              apply app_inv_head in Eshape. apply app_inv_head in Eshape.
+              assert (Et : forall (x y : list stmt) t, (x ++ t = y ++ t -> x = y)%list)
+                by (intros x y t Hxy; eapply app_inv_tail; exact Hxy).
+              apply (Et rest (sa ++ SBlank :: sb ++ [SBlank])%list
+                        (seg_foot_main stg seg ++ [SBlank; class_end_max (linker_symbols_style stg) cn seg; SBlank])%list).
+              rewrite Eshape. repeat (rewrite <- app_assoc; cbn [app]). reflexivity. }
+            unfold mid. rewrite Erest. fa.
+            + apply nes_seg_head.
+            + eapply nes_write_segment; eassumption.
+            + repeat constructor.
+            + eapply nes_write_segment; eassumption.
+            + repeat constructor.
+            + apply nes_seg_foot_main. }
+        (* the VRAM end: assigned by "VE = ." in the foot, by nothing afterwards *)
+        assert (Hin : In seg (seg :: filter (fun s => should_emit rt (sg_conds s) && opt_eqb_str (sg_vram_class s) (Some cn)) r))
+          by (left; reflexivity).
+        pose proof (Hve seg Hin) as Hdef. fold VE in Hdef.
+        set (sVE := linker_symbol VE EDot).
+        assert (Efm : exists fa fb, seg_foot_main stg seg = (fa ++ sVE :: fb)%list).
+        { exists ([SRomAdd ("." ++ sg_name seg)] ++
+                  match segment_end_align seg with
+                  | Some a => [SAlign "__romPos" a; SAlign "." a] | None => [] end)%list.
+          exists [linker_symbol (segment_vram_size sty (sg_name seg)) (EAbsSub VE (segment_vram_start sty (sg_name seg)));
+                  linker_symbol (segment_rom_end sty (sg_name seg)) (ESym "__romPos");
+                  linker_symbol (segment_rom_size sty (sg_name seg))
+                                (EAbsSub (segment_rom_end sty (sg_name seg)) (segment_rom_start sty (sg_name seg)))].
+          unfold seg_foot_main, sym_end_size. cbv zeta. fold sty VE. unfold sVE.
+          repeat (rewrite <- app_assoc; cbn [app]). reflexivity. }
+        destruct Efm as [fa [fb Efm]].
+        set (P := (prefix ++ seg_head stg seg ++ rest ++ fa)%list).
+        set (tailm := [SBlank; class_end_max sty cn seg; SBlank]).
+        assert (Es1 : s1 = (P ++ sVE :: fb ++ tailm)%list).
+        { rewrite Es. unfold mid, P, tailm. rewrite Efm. repeat (rewrite <- app_assoc; cbn [app]). reflexivity. }
+        assert (Ebody : (s1 ++ body_r = P ++ sVE :: (fb ++ tailm ++ body_r))%list).
+        { rewrite Es1. repeat (rewrite <- app_assoc; cbn [app]). reflexivity. }
+        rewrite Ebody in Hdef. apply defined_once_split in Hdef; [|apply String.eqb_refl].
+        destruct Hdef as [_ Hafter]. rewrite !existsb_app in Hafter.
+        apply orb_false_iff in Hafter. destruct Hafter as [Hfb Hafter].
+        apply orb_false_iff in Hafter. destruct Hafter as [Htm Hbr].
+        assert (NVE : VE <> "."%string) by (apply (style_name_neq sty); [sn|reflexivity]).
+        set (stP := runl P st0).
+        assert (VE1 : val (top stP sVE) VE = Some (l_dot stP)).
+        { unfold sVE. rewrite top_sym_dot by assumption. apply lookup_set_sym_same. }
+        assert (Epm : (prefix ++ mid = P ++ sVE :: fb)%list).
+        { unfold mid, P. rewrite Efm. repeat (rewrite <- app_assoc; cbn [app]). reflexivity. }
+        assert (VE2 : val (runl (prefix ++ mid) st0) VE = Some (l_dot stP)).
+        { rewrite Epm, run_app, run_cons. fold stP. unfold val. rewrite run_syms by assumption. exact VE1. }
+        set (ve := l_dot stP) in *.
+        assert (VE3 : val st1 VE = Some ve).
+        { unfold st1. rewrite Es1, run_app, run_cons. fold stP. unfold val.
+          rewrite run_syms; [exact VE1|]. rewrite existsb_app, Hfb, Htm. reflexivity. }
+        (* END after this segment *)
+        assert (Hend : val st1 END = Some (Z.max a ve)).
+        { unfold st1. apply (member_class_end env senv ext final rt stg cfg classes seg ws s1 ws1 cn st0 a ve E1 Hc Hcn rest Es);
+            try assumption.
+          fold mid. apply sym_lookup_defined. exact VE2. }
+        assert (Hm1 : mem_str cn (ws_emitted ws1) = true).
+        { destruct (segment_class _ _ _ _ _ _ _ _ E1 Hc) as [_ [_ [Ee _]]]. rewrite Ee, mem_emitted_after, Hcn.
+          cbn [opt_eqb_str]. rewrite String.eqb_refl. apply orb_true_r. }
+        destruct (IH ws1 body_r ws' st1 (Z.max a ve) E2 Hcr) as [vs [Hvs Hfin]].
+        * intros seg' Hin'. pose proof (Hve seg' (or_intror Hin')) as Hd'.
+          apply filter_In in Hin'. destruct Hin' as [Hin' Hmem]. apply andb_true_iff in Hmem. destruct Hmem as [Hc' _].
+          apply (defined_once_app_r _ _ _ Hd'). eapply vend_assigned_fold; eassumption.
+        * intros _. exact Hend.
+        * intro Hf. rewrite Hm1 in Hf. discriminate.
+        * exists (ve :: vs). split.
+          -- constructor; [|exact Hvs]. fold VE. unfold val. rewrite run_syms by assumption. exact VE3.
+          -- intro Hm'. cbn [fold_left]. apply Hfin. exact Hm'.
+      + (* an emitted segment of another class, or of none *)
+        assert (Hcn : sg_vram_class seg <> Some cn).
+        { intro E. rewrite E in Em. cbn [opt_eqb_str] in Em. rewrite String.eqb_refl in Em. discriminate. }
+        pose proof (nonmember_untouched _ _ _ _ _ _ _ _ cn E1 Hcn Hc1) as Hun. fold sty END in Hun.
+        assert (Hm1 : mem_str cn (ws_emitted ws1) = mem_str cn (ws_emitted ws)).
+        { destruct (segment_class _ _ _ _ _ _ _ _ E1 Hc) as [_ [_ [Ee _]]]. rewrite Ee, mem_emitted_after, Em.
+          apply orb_false_r. }
+        apply (IH ws1 body_r ws' st1 a E2 Hcr).
+        * intros seg' Hin'. pose proof (Hve seg' Hin') as Hd'.
+          apply filter_In in Hin'. destruct Hin' as [Hin' Hmem]. apply andb_true_iff in Hmem. destruct Hmem as [Hc' _].
+          apply (defined_once_app_r _ _ _ Hd'). eapply vend_assigned_fold; eassumption.
+        * rewrite Hm1. intro Hm. unfold st1, val. rewrite run_syms by assumption. apply Ha1. exact Hm.
+        * rewrite Hm1. exact Ha0.
+  Qed.
+End ClassEnd.
